@@ -51,6 +51,17 @@ Theorem C20_last_line_has_no_line_break : forall buf, forallb (fun c => negb (is
 Proof. exact find_last_line_no_nl. Qed.
 Print Assumptions C20_last_line_has_no_line_break.
 
+(* the worker thread's glue (task::Runner::start): "malformed content fails that step with a parse
+   error naming the depfile" - the successful command becomes a failed task whose output is that
+   error, with nothing reported as discovered *)
+Theorem C15_malformed_depfile_fails_the_step : forall showinc path t run e, cr_term run = 0%N -> depfile_parse t = Err e -> exists msg lno ctx pad, 1 <= lno /\ worker_result showinc (Some (path, Some t)) run = Ok (mkTR 1%N (error_text path msg lno ctx pad ++ [10%N]) None).
+Proof. exact worker_malformed_depfile_fails_step. Qed.
+Print Assumptions C15_malformed_depfile_fails_the_step.
+
+Theorem C16_worker_result_total : forall showinc depfile run, exists r, worker_result showinc depfile run = Ok r.
+Proof. exact worker_result_total. Qed.
+Print Assumptions C16_worker_result_total.
+
 (* a run that exercises every clause at once: notes in two chunks torn inside a line, a failing
    command (the depfile is ignored), then the same output from a successful command with a depfile *)
 Example C16_run_task_example : let chunks := [bs "Note: including f"; bs "ile: a.h" ++ [10%N] ++ bs "warn"; bs "ing" ++ [10%N]] in run_task true (Some (bs "o.d", Some (bs "o: b.h c.h"))) (mkRun chunks 1%N) = Ok (mkTR 1%N (bs "warning" ++ [10%N]) (Some [bs "a.h"]), [bs "Note: including f"; bs "warn"; bs "warning"]) /\ run_task true (Some (bs "o.d", Some (bs "o: b.h c.h"))) (mkRun chunks 0%N) = Ok (mkTR 0%N (bs "warning" ++ [10%N]) (Some [bs "b.h"; bs "c.h"]), [bs "Note: including f"; bs "warn"; bs "warning"]) /\ run_task false (Some (bs "o.d", None)) (mkRun chunks 0%N) = Ok (mkTR 0%N (concat chunks) (Some []), [bs "Note: including f"; bs "warn"; bs "warning"]) /\ exists txt, run_task false (Some (bs "o.d", Some (bs "o b.h"))) (mkRun chunks 0%N) = Err txt.
